@@ -616,6 +616,15 @@ func (p *Parser) parseInfixExpression(left ast.Expression) ast.Expression {
 	if expression.Operator == "." {
 		if expression.Right != nil && expression.Right.String() != "" {
 			name := expression.Right.String()
+
+			// The text of a nested use of the dot holds the text of
+			// the inner one, quoted and escaped again - it doubles
+			// with every level.  Nothing sensible is that long.
+			if len(name) > 0xFFFF {
+				msg := fmt.Sprintf("the name after the '.' is too long (%d bytes) around %s", len(name), p.curToken.Position())
+				p.errors = append(p.errors, msg)
+				return nil
+			}
 			expression.Right = &ast.StringLiteral{Token: token.Token{Type: token.STRING, Literal: name}, Value: name}
 		}
 	}
